@@ -37,5 +37,10 @@ def rules(ctx, db):
                    "op `%s` is implemented for the polling driver too (same base name, fusion wrappers included)" % name)
 
 
+    if any(n.startswith("compio_fs::") for n in db.adts):
+        from .. import forward
+        forward.rule_io_forwarders(ctx, db, "R7", ("compio_fs::", "compio_runtime::"), 20)
+
+
 def check(tier):
     return engine.run("C08", tier, rules, NOT_DECIDED, [])
